@@ -27,6 +27,9 @@ func runC08(p *eng.Prog, r *eng.Report, tier string) {
 	// C08.10 a received stream error is returned as such: its decoder consumes
 	// the whole element (E-dec3/E-dec6), otherwise Serve ends with a decoding error
 	stanzaIsTable(c, "C08.12")
+	// C08.13 what Serve returns for a received stream error is the error the
+	// peer sent: its condition is never taken from a <text/> child
+	c13StreamErrorArms(c, "C08.13")
 	nDec := decoderLoopConsumes(c, "C08.10", func(f *eng.Fn) bool { return strings.HasPrefix(f.Short, "stream.") })
 	c.r.Floor("C08.10", "start-element arms in the token loops of the stream package", nDec, 1)
 	// C08.11 only the peer's closing tag ends Serve without an error
